@@ -129,16 +129,29 @@ def execLoop (limit : Option Nat) (runner : Runner) :
 def execAll (total : Option Nat) (runner : Runner) (tcs : List TC) : ExecResult × List (Option Nat) :=
   execLoop (totalLimit total) runner tcs 0 0 [] []
 
-/-- `BashScriptExecutor::execute_all` (Cram) for a script that ran to its end: all test cases were
-    executed in one process, `outs` are the per-divider outputs; the first output that carries the
-    (shared) skip code skips the document -/
-def execScript (tcs : List TC) (outs : List Out) : ExecResult :=
-  let skip : Int := match tcs with
-    | tc :: _ => skipCodeOf tc
-    | [] => 80
-  match outs.findIdx? (fun o => o.status = .code skip) with
-  | some i => .skipped i
-  | none => .ok outs
+/-- skip code shared by the test cases of a Cram document (`compile_testcase` takes it from the
+    test cases, which all carry the Cram default or the same configured value) -/
+def scriptSkip (tcs : List TC) : Int := match tcs with
+  | tc :: _ => skipCodeOf tc
+  | [] => 80
+
+/-- `BashScriptExecutor::execute_all` (Cram, src/executors/bash_script_executor.rs:77-160): all
+    test cases run in ONE bash process; `script` is the status of that process, `outs` the
+    per-divider outputs found in its stdout (fewer than test cases if a command left the shell).
+    Order of the decisions as in the source: script-level skip code, timeout, unknown; then a
+    parsed output carrying the (shared) skip code skips the document; then the count check.
+    `none` = execution error (the run exits with 1). -/
+def execScript (tcs : List TC) (script : Status) (outs : List Out) : Option ExecResult :=
+  let skip : Int := scriptSkip tcs
+  let afterStatus : Option ExecResult :=
+    match outs.findIdx? (fun o => o.status = .code skip) with
+    | some i => some (.skipped i)
+    | none => if outs.length ≠ tcs.length then none else some (.ok outs)
+  match script with
+  | .code c => if c = skip then some (.skipped 0) else afterStatus
+  | .timeout => some (.timeout true 0 [⟨.timeout, false, false⟩])
+  | .unknown => none
+  | _ => afterStatus
 
 /-- one reported outcome: index of the test case and its verdict -/
 abbrev Outcome := Nat × Verdict
